@@ -8,7 +8,7 @@ view = sys.argv[2] if len(sys.argv) > 2 else "release"
 vdrv.EXTRACTOR = os.path.join(vdrv.VERIF, "extractor", "target", "debug", "extractor")
 specs = sorted(glob.glob(os.path.join(vdrv.VERIF, "contracts", "*.vspec")))
 import props_cfg
-props = [os.path.join(vdrv.VERIF, "props", f) for f in props_cfg.PROPS[prop]["units"][0]["props"]] if prop in props_cfg.PROPS else [os.path.join(vdrv.VERIF, "props", "lib_algebra.rs"), os.path.join(vdrv.VERIF, "props", prop + ".rs")]
+props = [os.path.join(vdrv.VERIF, "props", f) for f in [u for u in props_cfg.PROPS[prop]["units"] if u.get("name") == "GENERIC"][0]["props"]] if prop in props_cfg.PROPS else [os.path.join(vdrv.VERIF, "props", "lib_algebra.rs"), os.path.join(vdrv.VERIF, "props", prop + ".rs")]
 try:
     path, layout = vdrv.assemble("GENERIC_" + prop, specs, [prop], view, props, os.path.join(vdrv.BUILD, "dev"))
 except vdrv.ToolFailure as e:
